@@ -160,6 +160,37 @@ def run(ctx):
             ctx.violate("derived type overriding keytype: inherited fixed key 'Foo' is not re-normalised; on %r composed gives %r, expansion %r" % (t, ra, rb),
                         {"composed": comp, "expanded": expd, "text": t}, signature="C11:extends:inherited-fixed-name-not-renormalised")
             break
+    # directed: wildcard-key defaults are re-normalised from the keys AS WRITTEN when a derived type overrides the key type - also
+    # when the base key type is lossy on them (basic-key lower-cases 'Abc'), also along a chain, for key and multikey
+    for kind, dflt in (("key", "<default key='Abc'>one</default><default key='xY-z'>two</default>"),
+                       ("multikey", "<default key='Abc'>one</default><default key='Abc'>uno</default><default key='xyZ'>two</default>")):
+        wild = "<%s name='+' attribute='m'>%s</%s>" % (kind, dflt, kind)
+        comp = ("<schema><sectiontype name='b'>%s</sectiontype><sectiontype name='d' extends='b' keytype='identifier'><key name='Own'/></sectiontype>"
+                "<sectiontype name='e' extends='d' keytype='basic-key'/>"
+                "<section type='d' name='*' attribute='d'/><section type='e' name='e1' attribute='e'/><section type='b' name='b1' attribute='b'/></schema>" % wild)
+        expd = ("<schema><sectiontype name='b'>%s</sectiontype><sectiontype name='d' keytype='identifier'>%s<key name='Own'/></sectiontype>"
+                "<sectiontype name='e' keytype='basic-key'>%s<key name='own'/></sectiontype>"
+                "<section type='d' name='*' attribute='d'/><section type='e' name='e1' attribute='e'/><section type='b' name='b1' attribute='b'/></schema>" % (wild, wild.replace("xY-z", "xY_z") if False else wild, wild))
+        if kind == "key":
+            # 'xY-z' is not an identifier: both forms must refuse the schema alike; use a second pair that all key types take
+            comp, expd = comp.replace("xY-z", "xYz"), expd.replace("xY-z", "xYz")
+        try:
+            a, b = _load(comp), _load(expd)
+        except Exception as e:
+            ra, rb = _accepts(comp), _accepts(expd)
+            ctx.evaluations += 1
+            if ra != rb:
+                ctx.violate("derived types overriding the key type over keyed wildcard defaults: composed schema %s, expansion %s" % (ra, rb),
+                            {"composed": comp, "expanded": expd}, signature="C11:extends:wildcard-defaults:load")
+            continue
+        for t in ["<d/>\n<e e1/>\n<b b1/>\n", "<d>\nOwn v\n</d>\n", "<d>\nAbc mine\n</d>\n<e e1>\nabc mine\n</e>\n", "<d>\nabc other\n</d>\n"]:
+            ra, rb = _behaves(a, t), _behaves(b, t)
+            ctx.evaluations += 1
+            ctx.nontriv(("wildcard-defaults", kind, t))
+            if ra != rb:
+                ctx.violate("a derived type overriding the key type re-normalises inherited wildcard defaults differently from its expansion on %r: %r vs %r" % (t, ra, rb),
+                            {"composed": comp, "expanded": expd, "text": t}, signature="C11:extends:wildcard-defaults")
+                break
     # ---------------------------------------------------------------- (b) prefixes, (c) schema extends, (d) component imports
     root = tempfile.mkdtemp(prefix="zcv-c11-", dir="/dev/shm" if os.path.isdir("/dev/shm") else None)
     sys.path.insert(0, root)
